@@ -18,7 +18,7 @@ def run_model(history, dumps="end"):
         elif op["op"] == "dump":
             expect.append(("dump",))
         else:
-            if dumps == "all":
+            if dumps == "all" and not op.get("_nodump"):
                 lines.append("dump")
                 expect.append(("ev", "dump"))
             else:
